@@ -3,8 +3,8 @@
    PARTIAL by design: MRV (lxml), float formatting and the grep-based index are covered by the search only. *)
 From Coq Require Import ZArith List String Ascii Bool Lia.
 From Model Require Import PyBase Mdl Mrv Stereo.
-From Gen Require Import MdlTables.
-From Proofs Require Import MdlProofs MdlV2000 MdlV3000 MdlTail MdlFraming MdlFramingExt MdlMeta MdlFile MdlFileMol MdlFileMol3 MdlRxn MdlFileRxn MdlFileRxn3 MdlSessions MrvProofs StereoProofs.
+From Gen Require Import MdlTables MdlSource.
+From Proofs Require Import MdlProofs MdlV2000 MdlV3000 MdlTail MdlFraming MdlFramingExt MdlMeta MdlFile MdlFileMol MdlFileMol3 MdlRxn MdlFileRxn MdlFileRxn3 MdlSessions MdlEscape MdlSourceTie MrvProofs StereoProofs.
 Import ListNotations.
 Open Scope Z_scope.
 Local Notation length := List.length.
@@ -427,7 +427,23 @@ Theorem C11_meta_value_line_not_key_line : forall l,
 Proof. exact meta_match_not_gt. Qed.
 Print Assumptions C11_meta_value_line_not_key_line.
 
-(* the key escapes: exact on every key without '&' up to length 5 over the critical alphabet (finite sweep) ... *)
+(* the key escapes, in full: for EVERY key without '&' the reader reconstructs the stripped key from what SDFWrite / ESDFWrite wrote
+   (replace-by-replace induction; the writer tables are the generated ones) ... *)
+Theorem C11_sdf_key_escape_no_amp : forall k, ~ In amp k ->
+  sdf_key_back sdf_write_escape k = strip k /\ sdf_key_back esdf_write_escape k = strip k.
+Proof. exact sdf_key_escape_no_amp. Qed.
+Print Assumptions C11_sdf_key_escape_no_amp.
+(* ... hence, with keys free of '&' and newline, the conditions of the metadata theorem are conditions on the RAW key and the dictionary
+   comes back under the stripped keys: the same specification as for RDF *)
+Theorem C11_sdf_meta_roundtrip_plain : forall entries, Forall sdf_entry_plain entries ->
+  sdf_read_metadata (readlines (sdf_meta_text sdf_write_escape (meta_of entries))) = meta_spec entries.
+Proof. exact sdf_meta_roundtrip_plain. Qed.
+Print Assumptions C11_sdf_meta_roundtrip_plain.
+Theorem C11_sdf_key_escape_example : ~ In amp (L " a>b <c> ") /\ sdf_key_back sdf_write_escape (L " a>b <c> ") = L "a>b <c>".
+Proof. exact sdf_key_escape_example. Qed.
+Print Assumptions C11_sdf_key_escape_example.
+
+(* (the earlier bounded sweep, now a special case of C11_sdf_key_escape_no_amp; kept as an independent vm_compute check) *)
 Theorem C11_sdf_key_escape_partial :
   forallb (fun k => str_eqb (sdf_key_back sdf_write_escape k) (strip k)) (words (L "<>gtl;x ") 5) = true.
 Proof. exact sdf_key_escape_bounded. Qed.
@@ -491,6 +507,65 @@ Theorem C11_mrv_example :
   mrv_write_read true exm_mol exm_hs = Ok exm_parsed.
 Proof. exact (conj exm_hypotheses exm_roundtrip). Qed.
 Print Assumptions C11_mrv_example.
+
+(* ---- tie to the SOURCE TEXT: Gen.MdlSource holds the f-strings, column slices, string / integer constants, skipped-exception lists
+        and the key-line regular expression of the writers and readers, regenerated on every run; the model's line writers ARE the
+        renderings of the generated templates (render: literal pieces, field order and format specifications from the source) ---- *)
+Theorem C11_source_snapshot :
+  src_molwrite_templates = hand_molwrite_templates /\ src_emolwrite_templates = hand_emolwrite_templates /\
+  src_mol_slices = hand_mol_slices /\ src_mol_strings = hand_mol_strings /\ src_mol_ints = hand_mol_ints /\
+  src_emol_slices = hand_emol_slices /\ src_emol_strings = hand_emol_strings /\ src_emol_split_strings = hand_emol_split_strings /\
+  src_rxn_slices = hand_rxn_slices /\ src_rxn_strings = hand_rxn_strings /\ src_rxn_ints = hand_rxn_ints /\
+  src_erxn_slices = hand_erxn_slices /\ src_erxn_strings = hand_erxn_strings /\ src_erxn_ints = hand_erxn_ints /\
+  src_sdfwrite_templates = hand_sdfwrite_templates /\ src_rdfwrite_templates = hand_rdfwrite_templates /\
+  src_esdfwrite_templates = hand_esdfwrite_templates /\ src_erdfwrite_templates = hand_erdfwrite_templates /\
+  src_sdfread_read_block_strings = hand_sdfread_read_block_strings /\ src_rdfread_read_block_strings = hand_rdfread_read_block_strings /\
+  src_sdfread_read_metadata_strings = hand_sdfread_read_metadata_strings /\ src_rdfread_read_metadata_strings = hand_rdfread_read_metadata_strings /\
+  src_rdfread_read_metadata_slices = hand_rdfread_read_metadata_slices /\
+  src_sdfread_reset_index_strings = hand_sdfread_reset_index_strings /\ src_rdfread_reset_index_strings = hand_rdfread_reset_index_strings /\
+  src_meta_pattern = hand_meta_pattern /\ src_rdfwrite_header_strings = hand_rdfwrite_header_strings /\ src_io_init_strings = hand_io_init_strings.
+Proof.
+  exact (conj tie_molwrite_templates (conj tie_emolwrite_templates (conj tie_mol_slices (conj tie_mol_strings (conj tie_mol_ints
+        (conj tie_emol_slices (conj tie_emol_strings (conj tie_emol_split_strings (conj tie_rxn_slices (conj tie_rxn_strings (conj tie_rxn_ints
+        (conj tie_erxn_slices (conj tie_erxn_strings (conj tie_erxn_ints (conj tie_sdfwrite_templates (conj tie_rdfwrite_templates
+        (conj tie_esdfwrite_templates (conj tie_erdfwrite_templates (conj tie_sdfread_read_block_strings (conj tie_rdfread_read_block_strings
+        (conj tie_sdfread_read_metadata_strings (conj tie_rdfread_read_metadata_strings (conj tie_rdfread_read_metadata_slices
+        (conj tie_sdfread_reset_index_strings (conj tie_rdfread_reset_index_strings (conj tie_meta_pattern (conj tie_rdfwrite_header_strings
+        tie_io_init_strings))))))))))))))))))))))))))).
+Qed.
+Print Assumptions C11_source_snapshot.
+Theorem C11_tie_v2_atom_line : forall (mapping : bool) a c, w_charge (wa_chg a) = Ok c ->
+  match render (env_of [("x"%string, VF (wa_x a)); ("y"%string, VF (wa_y a)); ("z"%string, VF (wa_z a)); ("a.atomic_symbol"%string, VS (wa_sym a));
+                        ("c"%string, VS c); ("m"%string, VZ (if mapping then wa_num a else 0))]) (tpl src_molwrite_templates 1) with
+  | Some t => v2_atom_line mapping a = Ok (removelast t) /\ last t sp = nl
+  | None => False
+  end.
+Proof. exact tie_v2_atom_line. Qed.
+Print Assumptions C11_tie_v2_atom_line.
+Theorem C11_tie_v2_prop_lines : forall n iso chg,
+  render (env_of [("n"%string, VZ n); ("a.isotope"%string, VZ iso)]) (tpl src_molwrite_templates 4) =
+    Some (add_nl (L "M  ISO  1 " ++ fmt_d 3 n ++ [sp] ++ fmt_d 3 iso)) /\
+  render (env_of [("n"%string, VZ n)]) (tpl src_molwrite_templates 5) = Some (add_nl (L "M  RAD  1 " ++ fmt_d 3 n ++ L "   2")) /\
+  render (env_of [("n"%string, VZ n); ("a.charge"%string, VZ chg)]) (tpl src_molwrite_templates 6) =
+    Some (add_nl (L "M  CHG  1 " ++ fmt_d 3 n ++ [sp] ++ fmt_d 3 chg)).
+Proof. exact tie_v2_prop_lines. Qed.
+Print Assumptions C11_tie_v2_prop_lines.
+Theorem C11_tie_v2_header_and_bonds : forall name na nb i j o (up : bool),
+  render (env_of [("g.name"%string, VS name); ("g.atoms_count"%string, VZ na); ("g.bonds_count"%string, VZ nb)]) (tpl src_molwrite_templates 0) =
+    Some (text_of_lines [name; []; []; v2_counts_line na nb]) /\
+  render (env_of [("atoms[n]"%string, VZ i); ("atoms[m]"%string, VZ j); ("bonds[n][m].order"%string, VZ o);
+                  ("s == 1 and '1' or '6'"%string, VS (if up then L "1" else L "6"))]) (tpl src_molwrite_templates 2) =
+    Some (add_nl (v2_bond_line i j o (if up then L "1" else L "6"))) /\
+  render (env_of [("atoms[n]"%string, VZ i); ("atoms[m]"%string, VZ j); ("b.order"%string, VZ o)]) (tpl src_molwrite_templates 3) =
+    Some (add_nl (v2_bond_line i j o (L "0"))).
+Proof. exact (fun name na nb i j o up => conj (tie_v2_header name na nb) (tie_v2_bond_lines i j o up)). Qed.
+Print Assumptions C11_tie_v2_header_and_bonds.
+Theorem C11_tie_skipped_exceptions_and_header :
+  (src_iter_handlers = ["(ValueError, IndexError)"; "EOFError"]%string /\ src_getitem_handlers = ["EOFError"; "ValueError"; "EOFError"; "ValueError"]%string) /\
+  (src_rdfwrite_init_condition = "not append or not (self._is_buffer or self._file.tell() != 0)"%string /\
+   forall is_buffer append tell_nonzero, rdf_writes_header is_buffer append tell_nonzero = negb append || negb (is_buffer || tell_nonzero)).
+Proof. exact (conj tie_skipped_exceptions tie_header_condition). Qed.
+Print Assumptions C11_tie_skipped_exceptions_and_header.
 
 (* ---- the geometric sign functions behind wedge reading / writing (model and lemmas shared with C12) ---- *)
 Theorem C11_pyramid_sign_antisym : forall n u v w,
